@@ -779,4 +779,31 @@ example : ∃ c s : Rat, c * c + s * s = 1 ∧ s ≠ 0 := ⟨3 / 5, 4 / 5, by no
 example : ∃ a b d : Rat, a * a + b * b + d * d = 1 ∧ a ≠ 0 ∧ b ≠ 0 ∧ d ≠ 0 :=
   ⟨2 / 3, 2 / 3, 1 / 3, by norm_num, by norm_num, by norm_num, by norm_num⟩
 
+/-! ## `grid.weights = w` as an operation of a history (driver op `setw`) -/
+
+/-- **Assigning the weights changes the weights only**: the coordinate system, the coordinates and so every point stay. -/
+theorem setWeights_points (g : Grid) (w : Weights) :
+    (g.setWeights w).system = g.system ∧ (g.setWeights w).coords = g.coords ∧
+    (g.setWeights w).coords.points = g.coords.points := ⟨rfl, rfl, rfl⟩
+
+/-- **The weights read back are the assigned ones** (an array as it is, a scalar broadcast to every point); assigning `None`
+returns to the automatic weights. -/
+theorem setWeights_weightList (g : Grid) (a : List Rat) (k : Rat) :
+    (g.setWeights (.array a)).weightList = some a ∧
+    (g.setWeights (.scalar k)).weightList = some (List.replicate g.coords.size k) ∧
+    (g.setWeights .none).getWeights = autoWeights g.system g.coords := ⟨rfl, rfl, rfl⟩
+
+/-- **A scale after the assignment multiplies exactly the assigned weights by the Jacobian** (Cartesian grids, either
+argument form), whatever weights the grid had before. -/
+theorem setWeights_then_scale (g g' : Grid) (a : List Rat) (s : ScaleArg) (hc : g.system = .cartesian)
+    (h : (g.setWeights (.array a)).scale s = some g') :
+    g'.weightList = some (a.map (· * s.weightFactor g.coords.ndim)) ∧ g'.coords = g.coords.scale (s.factors g.coords.ndim) := by
+  simp only [Grid.scale, Grid.setWeights, hc, Grid.getWeights, Option.map_some, Option.some.injEq] at h
+  subst h
+  exact ⟨rfl, rfl⟩
+
+example : ∃ g g' : Grid, g.system = .cartesian ∧ (g.setWeights (.array [1, 2])).scale (.scalar 2) = some g' :=
+  ⟨⟨.cartesian, .separated [[0, 1]], .none⟩, _, rfl, rfl⟩
+
+
 end HcipyVerif.Grid
